@@ -19,7 +19,7 @@ from . import r4a
 
 NAME = "r4b"
 PROP = "C19"
-KNOBS = [(512, 1024), (1024, 4096), (1000, 3000), (4000, 20000)]
+KNOBS = [(512, 1024), (1024, 4096), (1000, 3000), (4000, 20000), (600, 1000), (700, 2000), (2000, 2000), (999, 3001)]
 
 _mods = {}
 
